@@ -265,6 +265,13 @@ func (f *frame) callFunc(fn *ssa.Function, bindings []*Val, args []*Val, res ssa
 	if fc := f.e.contractFor(f.pkg, fn); fc != nil && !f.inline[fn.Name()] && !(f.top && fn == f.fn && false) {
 		return f.callContract(fc, fn, args, pos)
 	}
+	// a call that textually sits in an inlined function of another package: the assumed contracts that
+	// package's contract file declares for external functions apply to it as well
+	if f.fn != nil && f.fn.Pkg != nil && f.fn.Pkg != f.pkg && !f.inline[fn.Name()] {
+		if fc := f.e.contractFor(f.fn.Pkg, fn); fc != nil && fc.Extern {
+			return f.callContract(fc, fn, args, pos)
+		}
+	}
 	if len(fn.Blocks) > 0 && (f.e.inModule(fn) || fn.Parent() != nil || f.inline[fn.Name()] ||
 		(fn.Synthetic != "" && (strings.HasSuffix(fn.Name(), "$bound") || strings.HasSuffix(fn.Name(), "$thunk") || strings.HasPrefix(fn.Synthetic, "wrapper for ")))) {
 		if f.depth >= 6 {
@@ -272,7 +279,78 @@ func (f *frame) callFunc(fn *ssa.Function, bindings []*Val, args []*Val, res ssa
 		}
 		return f.inlineCall(fn, bindings, args)
 	}
+	// a side-effect-free standard-library function that no contract file describes: an UNSPECIFIED
+	// deterministic function of its arguments (nothing is known about its value; listed in the evidence).
+	// Code that merely calls such a function (a log line, a normalisation the contract does not care
+	// about) stays within reach; code whose contract depends on the value fails that contract.
+	if pureStdlib[fn.String()] && fn.Signature.Variadic() == false && fn.Signature.Results().Len() >= 1 {
+		var ts []*Term
+		var asorts []*Sort
+		ok := true
+		for _, a := range args {
+			if a == nil || a.T == nil {
+				ok = false
+				break
+			}
+			ts = append(ts, a.T)
+			asorts = append(asorts, a.T.Sort)
+		}
+		if ok {
+			var rts []*Term
+			for i := 0; i < fn.Signature.Results().Len(); i++ {
+				rs, err := f.e.Sorts.SortOf(fn.Signature.Results().At(i).Type())
+				if err != nil {
+					ok = false
+					break
+				}
+				// same symbol as an assumed contract of another package would give it (defs.go extSym)
+				nm := "ext." + sanitize(strings.NewReplacer("(", "", ")", "", "*", "").Replace(fn.String()))
+				if fn.Signature.Results().Len() > 1 {
+					nm = fmt.Sprintf("%s!%d", nm, i)
+				}
+				f.e.Defs.noteFunc(nm, asorts, rs)
+				r := App(nm, rs, ts...)
+				if f.c != nil {
+					f.assume(f.e.rangeFact(r, fn.Signature.Results().At(i).Type()))
+				}
+				rts = append(rts, r)
+			}
+			if ok {
+				if f.c != nil {
+					if f.c.assumed == nil {
+						f.c.assumed = map[string]bool{}
+					}
+					f.c.assumed[fn.String()+" (no contract: treated as an unspecified side-effect-free function of its arguments)"] = true
+				}
+				return resultVal(fn.Signature, rts), nil
+			}
+		}
+	}
 	return nil, unsupported("call to %s: no contract for this external function", fn.String())
+}
+
+// pureStdlib: standard-library functions known to be free of side effects (they read only their
+// arguments); used only when no contract file describes the function.
+var pureStdlib = map[string]bool{
+	"strings.TrimSpace": true, "strings.ToLower": true, "strings.ToUpper": true, "strings.Index": true,
+	"strings.LastIndex": true, "strings.LastIndexByte": true, "strings.Fields": true, "strings.Repeat": true,
+	"strings.ReplaceAll": true, "strings.Replace": true, "strings.Trim": true, "strings.TrimLeft": true,
+	"strings.TrimRight": true, "strings.Count": true, "strings.ContainsAny": true, "strings.Title": true,
+	"strings.Contains": true, "strings.Split": true, "strings.SplitN": true, "strings.Compare": true,
+	"strings.ToValidUTF8": true, "strings.EqualFold": true,
+	"strconv.Quote": true, "strconv.QuoteToASCII": true, "strconv.Unquote": true, "strconv.FormatInt": true,
+	"strconv.Itoa": true, "strconv.FormatBool": true, "strconv.FormatUint": true,
+	"unicode.IsSpace": true, "unicode.IsDigit": true, "unicode.IsLetter": true, "unicode.IsUpper": true,
+	"unicode.IsLower": true, "unicode.IsPunct": true, "unicode.ToLower": true, "unicode.ToUpper": true,
+	"unicode/utf8.RuneCountInString": true, "unicode/utf8.ValidString": true, "unicode/utf8.RuneLen": true,
+	"unicode/utf8.RuneCount": true, "unicode/utf8.Valid": true,
+	"bytes.Equal": true, "bytes.TrimSpace": true, "bytes.HasPrefix": true, "bytes.HasSuffix": true,
+	"bytes.Contains": true, "bytes.Index": true,
+	"path.Base": true, "path.Dir": true, "path.Ext": true, "path.Clean": true,
+	"path/filepath.Base": true, "path/filepath.Dir": true, "path/filepath.Ext": true, "path/filepath.Clean": true,
+	"net/url.QueryEscape": true, "net/url.QueryUnescape": true, "net/url.PathEscape": true, "net/url.PathUnescape": true,
+	"net/textproto.CanonicalMIMEHeaderKey": true, "net/http.CanonicalHeaderKey": true, "net/http.StatusText": true,
+	"math/bits.Len": true, "math/bits.OnesCount8": true, "math/bits.TrailingZeros8": true,
 }
 
 // ---- spec functions ---------------------------------------------------------------------
